@@ -15,7 +15,7 @@ from vlib.runner import HarnessError
 ID = "C16"
 TITLE = "Field order is a deterministic function of declaration and order() specs"
 RULE = ("Bounded-exhaustive: every dataclass of 1-3 (quick) / 1-4 (thorough) elements (k fields followed by n-k serialized "
-        "methods), every assignment to each element of an ordering spec in {none, order(-1|0|1|999), order(after=x), order(before=x) "
+        "methods, half of the programs with methods registering them under an alias different from their name), every assignment to each element of an ordering spec in {none, order(-1|0|1|999), order(after=x), order(before=x) "
         "for every other element x} without cycles, crossed with class-level overrides {none, order({elt: spec}) for one element, "
         "order([permutation])} and, for n >= 2, a one-level inheritance split with overrides on the base class alone and in conflict with "
         "an override of the same field on the subclass (the most derived one wins, MRO); Hypothesis adds 5-6 element classes.  Oracle: an "
@@ -69,6 +69,8 @@ def enumerate_cases(tier):
                 h0 = hash((n, k, repr(specs)))
                 base = {"n": n, "k": k, "specs": list(specs), "cls": None, "split": None, "resolver": bool(k < n and (h0 // 5) % 2)}
                 yield base
+                if k < n and (h0 // 29) % 2 == 0:  # serialized methods under an alias different from their name
+                    yield dict(base, malias=list(range(k, n)))
                 # class-level overrides: one element overridden / list form; inheritance split
                 h = hash((n, k, repr(specs)))
                 i = h % n
@@ -106,6 +108,8 @@ def strategy_(draw, tier):
     else:
         specs = [None] * n
     case = {"n": n, "k": k, "specs": specs, "cls": None, "split": None, "resolver": k < n and chance(draw, 0.5)}
+    if k < n and chance(draw, 0.5):
+        case["malias"] = [i for i in range(k, n) if chance(draw, 0.6)]
     r = draw(st.integers(0, 9))
     if r < 2:
         case["cls"] = {"list": draw(st.permutations(list(range(n))))}
@@ -154,10 +158,11 @@ def render(case) -> str:
 
     def method_lines(i):
         e = spec_expr(case["specs"][i], nm)
+        al = f"alias='z{nm[i]}', " if i in (case.get("malias") or []) else ""  # ordering refers to the NAME, output to the alias
         if case.get("resolver"):
-            deco = f"@resolver(serialized=True, order={e})" if e else "@resolver(serialized=True)"
+            deco = f"@resolver({al}serialized=True, order={e})" if e else f"@resolver({al}serialized=True)"
         else:
-            deco = f"@serialized(order={e})" if e else "@serialized"
+            deco = f"@serialized({al}order={e})" if e else (f"@serialized({al[:-2]})" if al else "@serialized")
         return [f"    {deco}", f"    def {nm[i]}(self) -> int:", f"        return {i}"]
 
     cls = case.get("cls")
@@ -283,6 +288,7 @@ def _evaluate(case, ctx, b, src):
     specs = effective_specs(case)
     C = b.module.C
     idx = {name: i for i, name in enumerate(nm)}
+    idx.update({"z" + nm[i]: i for i in (case.get("malias") or [])})
     views = {}
     try:
         views["serialize"] = [idx[x] for x in serialize(C, C())]
